@@ -145,6 +145,27 @@ func c15Script(c *core.Ctx, o rigOpts, variant int) {
 			return
 		}
 	}
+	// ... whatever their arguments are: a closed client answers ErrClientClosed before it looks at anything else
+	for name, call := range map[string]func() error{
+		"Start(nil, handler)":  func() error { return r.client.Start(nil, func(stun.Event) {}) },
+		"Start(nil, nil)":      func() error { return r.client.Start(nil, nil) },
+		"Indicate(nil)":        func() error { return r.client.Indicate(nil) },
+		"Do(nil, func)":        func() error { return r.client.Do(nil, func(stun.Event) {}) },
+		"Do(nil, nil)":         func() error { return r.client.Do(nil, nil) },
+		"Start(empty message)": func() error { return r.client.Start(new(stun.Message), nil) },
+	} {
+		var cerr error
+		if p, _ := safely(func() { cerr = call() }); p != nil {
+			fail("call-after-close", fmt.Sprintf("%s after Close panicked: %v", name, p))
+
+			return
+		}
+		if !errors.Is(cerr, stun.ErrClientClosed) {
+			fail("call-after-close", fmt.Sprintf("%s after Close returned %v", name, cerr))
+
+			return
+		}
+	}
 	if r.conn.NWrites() != writesBefore {
 		fail("write-after-close", "a call issued after Close wrote to the connection")
 
